@@ -25,7 +25,9 @@ fn run_replay(ctx: &Ctx, rep: &mut Report, prop: &str) -> bool {
                 let j = judge(rep, prop, "replay", &ast, &src, &mut rng, o);
                 if ctx.replay.as_ref().and_then(|r| r.get("via")).and_then(|v| v.as_str()) == Some("cli") {
                     let dir = ctx.scratch("replay");
+                    // 0: file and stdin; 1: file, terminal, staged tools
                     judge_cli(rep, prop, "replay", &src, &j.outcome, &dir, 0);
+                    judge_cli(rep, prop, "replay", &src, &j.outcome, &dir, 1);
                 }
             }
             Err(e) => {
